@@ -436,6 +436,17 @@ func runC07(p *an.Prog, r *an.Run, tier string) {
 				bad = append(bad, "after a successful settlement the return at "+p.Pos(in.Pos())+" is reachable without consuming the settled credit: the same earnings can be withdrawn again")
 			}
 		}
+		// ... from the account it was read from: the consume (and the settlement) name the account by the very value the
+		// balance read used — a re-spelled account (checksummed, lower-cased, trimmed) is another record in both drivers,
+		// the credit read stays where it was and is paid again
+		if get != nil && len(methodArgs(get)) > 0 {
+			ga := stripConv(methodArgs(get)[0])
+			for _, c := range consumes {
+				if ma := methodArgs(c); len(ma) > 0 && stripConv(ma[0]) != ga {
+					bad = append(bad, "the credit is consumed at "+p.Pos(c.Pos())+" under an account value other than the one the balance was read under ("+p.Pos(get.Pos())+"): if the two spell the account differently the credit read is never consumed")
+				}
+			}
+		}
 		for _, c := range consumes {
 			if in := an.PathAvoiding(fn, c.(ssa.Instruction), nil, isConsume, nil); in != nil {
 				bad = append(bad, "the settled credit can be consumed twice")
